@@ -230,6 +230,9 @@ func main() {
 			}
 		}(w)
 	}
+	for _, h := range pc.Harnesses {
+		harnessStubs[h.Func] = h.Stubs
+	}
 	nh := 0
 	for _, h := range pc.Harnesses {
 		if *only != "" && h.Func != *only {
@@ -331,6 +334,10 @@ func main() {
 					continue
 				}
 				nviol++
+				if nviol > 3 {
+					// further violating cases are counted but not replayed one by one
+					continue
+				}
 				os.MkdirAll(replayDir, 0o755)
 				path := filepath.Join(replayDir, fmt.Sprintf("%s-%d.json", *prop, nviol))
 				rb, _ := json.MarshalIndent(map[string]interface{}{"property": *prop, "harness": r.Harness, "shape": r.Shape,
